@@ -329,6 +329,10 @@ def simplify_inequality(
         lhs = simplify(sympify(lhs))
         rhs = simplify(sympify(rhs))
         assumption = simplify(Eq(lhs, rhs))
+        if not isinstance(assumption, Eq):
+            # a trivial or contradictory assumption (simplified to a boolean constant) cannot be substituted.
+            continue
+
         left_expr = left_expr.subs(assumption.lhs, assumption.rhs)
         right_expr = right_expr.subs(assumption.lhs, assumption.rhs)
 
